@@ -33,23 +33,30 @@ static bool rows_equal(const std::vector<AuditRow>& a, const std::vector<AuditRo
 
 // Is this op, in model state s, one whose result C19 exempts from comparison in TTL containers
 // (an update-only insert or an erase addressed to an expired-but-unreaped key; clean's count)?
+// "Expired" is judged for twin B as well, which did not execute the spliced calls and may still hold an
+// entry that A has already discarded: any key whose last entry ended by expiry and has not been written since.
+static bool exp_key(const State& s, int k)
+{
+    const KS& e = s.k[(size_t)k];
+    return e.st == EXPU || (e.st == ABSENT && e.why == W_EXPIRED);
+}
 static bool noop_exempt(const Cfg& cfg, const State& s, const Op& op)
 {
     if (!kind_is_ttl(cfg.kind))
         return false;
     if (op.kind == CLEAN)
         return true;
-    if (op.kind == INS && op.allow == A_UPDATE && s.k[(size_t)op.k].st == EXPU)
+    if (op.kind == INS && op.allow == A_UPDATE && exp_key(s, op.k))
         return true;
-    if (op.kind == ERA && s.k[(size_t)op.k].st == EXPU)
+    if (op.kind == ERA && exp_key(s, op.k))
         return true;
     if ((op.kind == INSR || op.kind == INSI) && op.allow == A_UPDATE)
         for (auto& it : op.items)
-            if (s.k[(size_t)it.k].st == EXPU)
+            if (exp_key(s, it.k))
                 return true;
     if (op.kind == ERAR || op.kind == ERAI)
         for (auto& it : op.items)
-            if (s.k[(size_t)it.k].st == EXPU)
+            if (exp_key(s, it.k))
                 return true;
     return false;
 }
@@ -92,6 +99,7 @@ static CaseResult run_twin_case_impl(Runner& R, uint64_t case_seed, const std::s
     size_t                  nops        = fixed_ops ? fixed_ops->size() : (size_t)plan.nops;
     int                     since_event = 1000; // ops since the last range / splice / clear (trigger: continuation length)
     bool                    had_event   = false;
+    bool                    size_suspended = false;
     size_t                  continuation = 0;
     if (print)
         std::printf("%s\n", cr.cfg_text.c_str());
@@ -147,6 +155,21 @@ static CaseResult run_twin_case_impl(Runner& R, uint64_t case_seed, const std::s
         {
             cr.inconclusive = true;
             break;
+        }
+        if (top.a_only)
+        {
+            // the specification chose this call as one without effect; A's own answer must confirm it
+            // (the follower's first candidate can be wrong about an unobserved victim).  If A says the
+            // call did take effect it is simply part of the history: B executes it too.
+            bool confirmed = true;
+            if (op.kind == INS || op.kind == ERA)
+                confirmed = !ra.b;
+            else if (op_is_find(op.kind) && !op.peek)
+                for (auto& v : ra.vals)
+                    if (v)
+                        confirmed = false;
+            if (!confirmed)
+                top.a_only = false;
         }
         if (top.a_only)
         {
@@ -218,10 +241,12 @@ static CaseResult run_twin_case_impl(Runner& R, uint64_t case_seed, const std::s
 
         // ---- compare results ----
         bool exempt = NOOP && noop_exempt(cfg, pre, op);
+        // twin-range on ut_map / ut_set: after an empty range (A purged, B made no call) clean's count may differ
+        bool skip_clean_cmp = RANGE && size_suspended && op.kind == CLEAN;
         if (!is_clock && !(CLEARM && op.kind == CLEAR))
         {
             ++g_twin_compared;
-            bool same = res_equal(op, ra, rb);
+            bool same = skip_clean_cmp || res_equal(op, ra, rb);
             if (!same)
             {
                 if (exempt)
@@ -238,6 +263,19 @@ static CaseResult run_twin_case_impl(Runner& R, uint64_t case_seed, const std::s
         if (!cr.violated)
         {
             bool cmp_size = !(NOOP && kind_is_ttl(cfg.kind));
+            if (RANGE && (cfg.kind == UTMAP || cfg.kind == UTSET))
+            {
+                // an empty range is zero single calls: A's (empty) call still purges expired entries, B makes no
+                // call at all, so until the next purging call on both size() may legitimately differ (C02 pins
+                // size() only right after an insert / erase / lookup / clean)
+                bool purging = op_is_insert(op.kind) || op_is_erase(op.kind) || op_is_find(op.kind) || op.kind == CLEAN;
+                if (op_is_range(op.kind) && op.items.empty())
+                    size_suspended = true;
+                else if (purging)
+                    size_suspended = false;
+                if (size_suspended)
+                    cmp_size = false;
+            }
             ++g_twin_compared;
             if (pa.cap != pb.cap || (cmp_size && (pa.size != pb.size || pa.empty != pb.empty)))
                 fail(std::string(P) + ".state", "after " + std::string(opk_names[op.kind]) + ": A size=" + std::to_string(pa.size) + " B size=" + std::to_string(pb.size), i);
